@@ -532,6 +532,27 @@ pub fn family(tier: Tier) -> Vec<Spec> {
             }
         }
     }
+    // SPELLINGS of the flag group that switches Unicode mode off inside a str literal (the meaning
+    // is what counts: such a pattern may match invalid UTF-8 and then needs utf8 = false)
+    {
+        let bodies = [".", "\\xFF", "[^a]", "[\\x80-\\xff]", "a"];
+        let spell = ["(?-u:B)", "(?-su:B)", "(?-us:B)", "(?s-u:B)", "(?i-su:B)", "(?-iu:B)", "(?-u)B", "(?-su)B", "(?x-u: B )", "(?U-u:B)", "(?-u:(?u:a)|B)", "(?u:(?-u:B))", "(?-u:(?-u:B))", "(?m-u:B)", "(?-uR:B)", "(?u-u:B)", "(?-u:(?i:B))", "(?:(?-u)B)"];
+        let ctx = ["X", "aX", "X+b", "(?:X|c)"];
+        for (i, b) in bodies.iter().enumerate() {
+            for (j, sp) in spell.iter().enumerate() {
+                for (k, c) in ctx.iter().enumerate() {
+                    if tier != Tier::Thorough && (i + j + k) % 2 == 1 {
+                        continue;
+                    }
+                    let p = c.replace('X', &sp.replace('B', b));
+                    for utf8 in [true, false] {
+                        specs.push(Spec::new(utf8, vec![Pat::regex(&p)]));
+                        specs.push(Spec::new(utf8, vec![Pat::skip(&p), Pat::token("zz")]));
+                    }
+                }
+            }
+        }
+    }
     // byte classes with arithmetic structure (anything a code generator could test with a mask, an
     // OR, a subtraction instead of comparisons): every pair of bytes that differ in exactly one bit,
     // every power-of-two aligned range, each also moved / stretched by one at either end - as the
